@@ -120,9 +120,32 @@ def make_red(I, kind, dims, body_fn):
     for v in bvars:
         free.pop(v.get_id(), None)
     fs = sorted(free.values(), key=lambda c: str(c))
+    # a reduction nested in another one mentions the enclosing bound variable as a free constant: the same reduction written
+    # twice (code / spec) then differs only by the NAME of that constant.  Re-use the function symbol of an existing reduction
+    # whose body coincides after renaming its bound-variable-like free constants (names r, r!k) to ours, position by position.
+    mine = [c for c in fs if str(c).split("!")[0] == "r"]
+    for r in reds:
+        if r.kind != kind or len(r.vars) != len(bvars) or getattr(r, "func", None) is None:
+            continue
+        theirs = [c for c in r.fs if str(c).split("!")[0] == "r"]
+        if not theirs or len(theirs) != len(mine) or len(r.fs) != len(fs):
+            continue
+        if any(str(a) != str(b) for a, b in zip([c for c in r.fs if c not in theirs], [c for c in fs if c not in mine])):
+            continue
+        for perm in itertools.permutations(range(len(bvars))):
+            if not all(zeq(I, sizes[perm[j]], r.sizes[j]) for j in range(len(bvars))):
+                continue
+            sub = [(r.vars[j], bvars[perm[j]]) for j in range(len(bvars))] + list(zip(theirs, mine))
+            rb = z3.substitute(r.body, *sub)
+            if I.path.must(z3.Implies(rng, rb == body)):
+                new_args = [dict(zip(theirs, mine)).get(c, c) if c in theirs else c for c in r.fs]
+                return r.func(*new_args)
     name = I.path.fresh_name(f"red_{kind}")
-    app = z3.Function(name, *[c.sort() for c in fs], body.sort())(*fs) if fs else z3.Const(name, body.sort())
-    reds.append(Red(kind, bvars, sizes, body, app))
+    func = z3.Function(name, *[c.sort() for c in fs], body.sort()) if fs else None
+    app = func(*fs) if fs else z3.Const(name, body.sort())
+    rd = Red(kind, bvars, sizes, body, app)
+    rd.func, rd.fs = func, fs
+    reds.append(rd)
     I.__dict__.setdefault("red_used", True)
     return app
 
